@@ -68,17 +68,39 @@ package fs
 //@ ghost recPath(fdb, ctx, key) = ite(db.hasTrans(fdb.DbBase, ctx), trPath(fdb, ctx, key), defPath(fdb, key))
 //@ pred writable(fdb) = forall(n, 0, 8, !(bit(fdb.DbBase.baseDb.pfx, n) && bit(fdb.DbBase.baseDb.lock, n)))
 
+// writeFile (C12): the value goes to a fresh temporary file and is moved onto the
+// record by an atomic rename. Every primitive that is not atomic (create, write,
+// remove) works on the temporary name only, the rename installs the complete
+// value, and a failed call leaves the record as it was. A process that dies at any
+// point inside therefore leaves the record either as before or complete.
+//@ ghost tmpPath(fdb) = pjoin(fdb.dir, tmpBase(".put-*", count(tmpfiles)))
+//@ modset tmpMods(fdb) = count(tmpfiles), fsExists[tmpPath(fdb)], fsContent[tmpPath(fdb)]
+//@ func (*fsDb).writeFile
+//@   serves C10, C12
+// record names never start with a dot, temporary names do
+//@   requires fdb != nil && len(pbase(fp)) >= 1 && pbase(fp)[0] != 46
+//@   modifies tmpMods(fdb), fsExists[fp], fsContent[fp]
+//@   callsite (*os.File).Write assert[C12] @tmponly fileOf(arg0) != fp
+//@   callsite os.Remove assert[C12] @tmponly arg0 != fp
+//@   callsite os.Rename assert[C12] @complete arg1 == fp && fsContent(arg0) == str(val)
+//@   ensures @written result == nil ==> fsExists(fp) && fsContent(fp) == str(val)
+//@   ensures[C12] @allornothing result != nil ==> fsExists(fp) == old(fsExists(fp)) && fsContent(fp) == old(fsContent(fp))
+
 // Put: refused while the data type is locked (no file changes); otherwise the
 // record file of (type, session, key, language) holds exactly the value (C10).
 // Data types are single bits below 64; the type byte shifted by 0x30 stays a byte (premise).
 //@ func (*fsDb).Put
-//@   serves C10
+//@   serves C10, C12
 //@   requires fsOk(fdb) && ctx != nil
 //@   premise !sameBacking(key, fdb.DbBase.baseDb.sid) && int(fdb.DbBase.baseDb.pfx) < 208 && !sameBacking(val, key) && !sameBacking(val, fdb.DbBase.baseDb.sid)
 //@   modifies fdb.DbBase.baseDb.sid[len(fdb.DbBase.baseDb.sid):cap(fdb.DbBase.baseDb.sid)], key[len(key):cap(key)]
-//@   modifies fsExists[recPath(fdb, ctx, key)], fsContent[recPath(fdb, ctx, key)]
+//@   modifies fsExists[recPath(fdb, ctx, key)], fsContent[recPath(fdb, ctx, key)], tmpMods(fdb)
+//@   ensures[C12] @allornothing result != nil ==> fsExists(old(recPath(fdb, ctx, key))) == old(fsExists(recPath(fdb, ctx, key))) && fsContent(old(recPath(fdb, ctx, key))) == old(fsContent(recPath(fdb, ctx, key)))
 //@   ensures[C10] @locked !old(writable(fdb)) ==> result != nil && all[string](p, fsExists(p) == old(fsExists(p)) && fsContent(p) == old(fsContent(p)))
 //@   ensures[C10] @notype fdb.DbBase.baseDb.pfx == 0 ==> result != nil
+// C12: see writeFile; a non-atomic write must never be applied to the record itself
+//@   callsite io/ioutil.WriteFile assert[C12] @atomic arg0 != recPath(fdb, ctx, key)
+//@   callsite os.WriteFile assert[C12] @atomic arg0 != recPath(fdb, ctx, key)
 //@   ensures[C10] @written result == nil ==> fsExists(old(recPath(fdb, ctx, key))) && fsContent(old(recPath(fdb, ctx, key))) == old(str(val))
 //@   ensures @session str(fdb.DbBase.baseDb.sid) == old(str(fdb.DbBase.baseDb.sid))
 
